@@ -767,8 +767,15 @@ func (vc *VC) loopHavoc(li *loopInfo, heap *Heap) *Heap {
 	if len(all) > 0 {
 		names := sortedKeys(all)
 		for _, c := range names {
+			old := hh.m[c]
 			hh.m[c] = vc.fresh("H", heapSort(c))
 			vc.reassumeConsts(hh, c)
+			for _, pr := range vc.privRefs {
+				if objs[pr] != nil && objs[pr][c] {
+					continue // written by the loop itself
+				}
+				vc.assume(sEq(sel(hh.m[c], pr), sel(old, pr)))
+			}
 		}
 	}
 	refs := make([]string, 0, len(objs))
